@@ -1,4 +1,6 @@
 import DEvo.Sig.Basic
+import DEvo.Run.Load
+import DEvo.Generated.Tables
 
 /-! # C16 — evolving one database only applies what is routed to that database
 
@@ -54,5 +56,27 @@ theorem C16_skip (stored target : List (String × Nat)) (m : String)
 theorem C16_elsewhere_not_in_sig (r : Router) (db app : String) (models : List String) (m : String)
     (h : r db app m = false) : m ∉ sigModels r db app models := by
   rw [C16_sig]; simp [h]
+
+/-! ## what a database is handed to evolve: the mutations of every pending label -/
+
+open DEvo.Load in
+/-- **every pending label contributes its own mutations on every database**: what is loaded for a list of labels is
+the concatenation of what each label ships for that database (its SQL file there, else its Python module) - a
+label shipped as an SQL file for one database does not silence the labels after it -/
+theorem C16_labels_load_independently (db : String) (es : List Shipped) :
+    loadLoop true db false es = es.flatMap (loadOne db) := loadLoop_reset db false es
+
+/-- the source resets its flag for every label (read by the translator on every run) -/
+theorem C16_source_found_reset : DEvo.Generated.foundResetPerLabel = true := by decide
+
+open DEvo.Load in
+/-- with the flag set once before the loop, a Python evolution that follows an evolution shipped as
+`other_<label>.sql` is loaded on `default` and lost on `other` -/
+theorem C16_cex_sticky_found_flag :
+    let es : List Shipped := [⟨"tidy", none, [("other", "UPDATE ...")], []⟩, ⟨"add_extras", none, [], ["AddField Gamma.note"]⟩]
+    loadLoop false "default" false es = [.py "AddField Gamma.note"] ∧
+    loadLoop false "other" false es = [.sql "tidy" "UPDATE ..."] ∧
+    loadLoop true "other" false es = [.sql "tidy" "UPDATE ...", .py "AddField Gamma.note"] := by
+  decide
 
 end DEvo.Props.C16
